@@ -29,7 +29,12 @@ MUTS = [
  ("M9", "sub-selections taken from the first node only (no merge)", EX, "                        for field in nodes\n                        if field.selection_set", "                        for field in nodes[:1]\n                        if field.selection_set"),
  ("M10", "possible-type check dropped in complete_value", EX, "                if not self.schema.is_possible_type(field_type, runtime_type):", "                if False:"),
  ("M11", "execute_fields in reversed key order", BX, "        for key, field_def, nodes in self._iterate_fields(parent_type, fields):\n            result[key]", "        for key, field_def, nodes in reversed(list(self._iterate_fields(parent_type, fields))):\n            result[key]"),
- ("M12", "resolver error swallowed without an error entry", BX, "            self.add_error(err, path, node)\n            return None", "            return None"),
+ ("M12", "resolver error swallowed without an error entry", BX, "        except (CoercionError, ResolverError) as err:\n            self.add_error(err, path, node)\n            return None", "        except (CoercionError, ResolverError) as err:\n            return None"),
+ ("M15", "7b8e151 reverted: BlockingExecutor lets a ResolverError raised while COMPLETING a value escape", BX, "        except ResolverError as err:\n            # Same as `Executor.resolve_field`", "        except ZeroDivisionError as err:\n            # Same as `Executor.resolve_field`"),
+ ("M16", "4e87d3d reverted: CoercionError of a directive condition not converted in ResolutionContext.collect_fields", "src/py_gql/execution/wrappers.py", "            except CoercionError as err:\n                # Invalid `@skip`", "            except ZeroDivisionError as err:\n                # Invalid `@skip`"),
+ ("M17", "4e87d3d partly reverted: execute() does not catch the ResolverError of the ROOT selection set", "src/py_gql/execution/execute.py", "    except ResolverError as err:\n        # The root selection set itself", "    except ZeroDivisionError as err:\n        # The root selection set itself"),
+ ("M18", "completion error caught but NOT recorded (field null without error)", BX, "            # iterables) is a field error.\n            self.add_error(err, path, node)\n            return None", "            # iterables) is a field error.\n            return None"),
+ ("M19", "completion error recorded with the errors of the interrupted items rolled back", BX, "        try:\n            return self.complete_value(\n                field_definition.type, nodes, path, info, resolved\n            )\n        except ResolverError as err:", "        _n = len(self._errors)\n        try:\n            return self.complete_value(\n                field_definition.type, nodes, path, info, resolved\n            )\n        except ResolverError as err:\n            del self._errors[_n:]"),
  ("M13", "HARMLESS: _seen_fragments rebinding repaired", CF, "    _seen_fragments = _seen_fragments or set()\n    grouped_fields = OrderedDict()  # type: GroupedFields\n\n    for selection in selections:\n        if isinstance(selection, ast.Field):\n            if _skip_selection(selection, variables):\n                continue\n\n            key = selection.response_name\n\n            if key not in grouped_fields:\n                grouped_fields[key] = []\n\n            grouped_fields[key].append(selection)\n\n        elif isinstance(selection, ast.InlineFragment):\n            if _skip_selection(\n                selection, variables\n            ) or not _fragment_type_applies(schema", "    _seen_fragments = set() if _seen_fragments is None else _seen_fragments\n    grouped_fields = OrderedDict()  # type: GroupedFields\n\n    for selection in selections:\n        if isinstance(selection, ast.Field):\n            if _skip_selection(selection, variables):\n                continue\n\n            key = selection.response_name\n\n            if key not in grouped_fields:\n                grouped_fields[key] = []\n\n            grouped_fields[key].append(selection)\n\n        elif isinstance(selection, ast.InlineFragment):\n            if _skip_selection(\n                selection, variables\n            ) or not _fragment_type_applies(schema"),
  ("M14", "argument cache keyed by node only (stale arguments across implementing types)", "src/py_gql/execution/wrappers.py", "        cache_key = field_definition, node\n", "        cache_key = node\n"),
  ("S1", "seeded class: fragment marked visited BEFORE the spread's @skip/@include is evaluated", CF, "            if (\n                _skip_selection(selection, variables)\n                or name in _seen_fragments\n                or not _fragment_type_applies(schema, object_type, fragment)\n            ):\n                continue\n", "            if name in _seen_fragments:\n                continue\n            _seen_fragments.add(name)\n            if (\n                _skip_selection(selection, variables)\n                or not _fragment_type_applies(schema, object_type, fragment)\n            ):\n                continue\n"),
@@ -37,6 +42,9 @@ MUTS = [
  ("S4", "seeded class: default_resolver falls through to getattr for a Mapping parent lacking the key", "src/py_gql/execution/default_resolver.py", "    if __isinstance(root, __mapping_cls):\n        return root.get(info.field_definition.python_name, None)\n", "    if __isinstance(root, __mapping_cls) and info.field_definition.python_name in root:\n        return root[info.field_definition.python_name]\n"),
  ("S6", "seeded class: merged sub-selections built IN PLACE on the first node's selection list", EX, "                self.collect_fields(\n                    runtime_type,\n                    [\n                        selection\n                        for field in nodes\n                        if field.selection_set\n                        for selection in field.selection_set.selections\n                    ],\n                ),", "                self.collect_fields(\n                    runtime_type,\n                    _merged_in_place(nodes),\n                ),"),
  ("S7", "seeded class: TypeInfoVisitor.leave_inline_fragment pops only for typed fragments", "src/py_gql/validation/visitors.py", "    def leave_inline_fragment(self, _node):\n        self._type_stack.pop()", "    def leave_inline_fragment(self, _node):\n        if _node.type_condition:\n            self._type_stack.pop()"),
+ ("S8", "seeded class: resolve_type memoises __typename__ per Python CLASS of the value (non-dict values)", EX, "            maybe_type = (\n                value.get(\"__typename__\", None)\n                if isinstance(value, dict)\n                else getattr(value, \"__typename__\", None)\n            )", "            if isinstance(value, dict):\n                maybe_type = value.get(\"__typename__\", None)\n            else:\n                _c = self.__dict__.setdefault(\"_runtime_types\", {})\n                if type(value) not in _c:\n                    _c[type(value)] = getattr(value, \"__typename__\", None)\n                maybe_type = _c[type(value)]"),
+ ("S9", "seeded class: _same_arguments drops explicit null literals before comparing", "src/py_gql/validation/rules/overlapping_fields_can_be_merged.py", "    if len(args_1) != len(args_2):\n        return False\n\n    s1 = sorted(args_1", "    args_1 = [a for a in args_1 if not isinstance(a.value, _ast.NullValue)]\n    args_2 = [a for a in args_2 if not isinstance(a.value, _ast.NullValue)]\n    if len(args_1) != len(args_2):\n        return False\n\n    s1 = sorted(args_1"),
+ ("S10", "seeded class: fragment-pair memo looked up under the sorted key but stored under the unsorted one", "src/py_gql/validation/rules/overlapping_fields_can_be_merged.py", "    ctx.compared_fragment_pairs.add(cache_key)  # type: ignore", "    ctx.compared_fragment_pairs.add(((fragment_1, fragment_2), mutually_exclusive))  # type: ignore"),
  ("S3", "seeded class: _find_conflict tests isinstance(parent_1, ObjectType) twice", "src/py_gql/validation/rules/overlapping_fields_can_be_merged.py", "        and isinstance(parent_1, ObjectType)\n        and isinstance(parent_2, ObjectType)", "        and isinstance(parent_1, ObjectType)\n        and isinstance(parent_1, ObjectType)"),
 ]
 
